@@ -63,7 +63,14 @@ def main(tier, seed):
             # keep programs whose payloads cannot be confused with session text
             cases.append(p)
         encs = [enc_prog(p) for p in cases]
-        m_one = model_exec(["one %s - 3000" % e for e in encs])
+        def compact(rec):
+            """only what is used below: the text written and how the run ends (full traces of 8 000 programs took 6 GB)"""
+            if unjudged(rec): return rec
+            o, e, end = summarize(rec)
+            return "P O=%s E=%s|END %s" % (o or "-", e or "-", end)
+        m_one = []
+        for b in range(0, len(encs), 1000):
+            m_one += [compact(r) for r in model_exec(["one %s - 3000" % e for e in encs[b:b + 1000]])]
         scripts = []; metas = []
         for p, rec in zip(cases, m_one):
             if rec.endswith("END cut"): continue
@@ -84,6 +91,11 @@ def main(tier, seed):
                 if r < 0.15: script.append("")
                 elif r < 0.25: script.append("help")
                 elif r < 0.3: script.append("   ")
+                if rng.random() < 0.12 and l.strip():
+                    # a program line that merely begins or ends with a session word: to the parser the word is foreign text, to the
+                    # session the line is still program text (seeded change C12-first-word-classifies-line)
+                    w = rng.choice(["help", "clear", "exit", "helper", "Help", "exits"])
+                    l = (w + " " + l) if rng.random() < 0.7 else (l + " " + w)
                 script.append(l)
             scripts.append("\n".join(script) + ("\n" if rng.random() < 0.9 else ""))
             metas.append((p, rec, pre_clear))
